@@ -339,7 +339,15 @@ pub fn gen_cases(profile: &str, seed: u64, b: &Budget) -> Vec<Case> {
                     bs = [64, 128, 192, 256, 512, 576, 1024, 320][(idx / 2) % 8];
                     cfg.block_size = bs;
                     mode = Mode::St;
-                    if idx % 5 == 1 {
+                    if idx % 100 == 53 {
+                        // long blocks: more than 64 partitions of 64 samples are possible (orders 7 and 8), and
+                        // the loudness alternates every 64 samples so that the finest orders are the optimum
+                        family = format!("nonstat{}", 1 + (idx / 100) % 3);
+                        bs = [8192, 16384][(idx / 100) % 2];
+                        cfg = Cfg { block_size: bs, use_lpc: idx % 200 == 53, max_parameter: 14, ..Cfg::default() };
+                        bps = 16;
+                        wide = Some(1);
+                    } else if idx % 5 == 1 {
                         // partition-order cost curve with a local minimum at the 64-sample scale and the
                         // global one far coarser; the signal is its own residual (fixed order 0 allowed only)
                         family = "ricebump".to_string();
@@ -375,6 +383,19 @@ pub fn gen_cases(profile: &str, seed: u64, b: &Budget) -> Vec<Case> {
                 bs = [4096, 2048, 3072, 4096][(idx / 30) % 4];
                 cfg = Cfg { block_size: bs, ..Cfg::default() };
                 mode = if idx % 90 == 10 { Mode::Mt(2) } else { Mode::St };
+            }
+            "c01" | "c15" if idx % 15 == 5 => {
+                // exact full-scale sinusoids at 20 / 24 bit, default predictor and reduced precisions
+                bps = if idx % 30 == 5 { 20 } else { 24 };
+                family = "fullsine".to_string();
+                gen::FULLSINE_PICK.with(|p| p.set(idx / 30));
+                bs = [1024usize, 4096, 512, 2048][(idx / 15) % 4];
+                cfg = Cfg { block_size: bs, ..Cfg::default() };
+                if bps == 24 && idx % 90 != 50 {
+                    cfg.quant_precision = [9usize, 10, 11, 12, 13][(idx / 30) % 5];
+                }
+                mode = Mode::St;
+                wide = Some(1);
             }
             "c01" | "c15" | "c02" | "c08" if idx % 6 == 4 => {
                 // threshold-directed for the i32 / i64 residual paths: DC + noise at 20/24 bit with the
@@ -413,7 +434,7 @@ pub fn gen_cases(profile: &str, seed: u64, b: &Budget) -> Vec<Case> {
             cfg.block_size = bs;
             cfg.use_lpc = false;
         }
-        let big = b.bigshare > 0 && idx % b.bigshare == b.bigshare / 2 && !long && !["dcedge", "ricebump", "wrap32"].contains(&family.as_str()) && profile != "c13";
+        let big = b.bigshare > 0 && idx % b.bigshare == b.bigshare / 2 && !long && !["dcedge", "ricebump", "wrap32", "fullsine"].contains(&family.as_str()) && profile != "c13";
         if big {
             bs = [4096usize, 2304, 8192, 16384, 4608, 32767, 1152, 12000][(idx / b.bigshare) % 8];
             cfg.block_size = bs;
@@ -434,7 +455,7 @@ pub fn gen_cases(profile: &str, seed: u64, b: &Budget) -> Vec<Case> {
         }
         if let Some(c) = wide {
             ch = c;
-            n = bs * (1 + idx % 2) + [0usize, 1, 100][idx % 3];
+            n = if profile == "c13" { bs } else { bs * (1 + idx % 2) + [0usize, 1, 100][idx % 3] };
         }
         if long {
             ch = 1 + idx % 2;
